@@ -26,6 +26,7 @@ import (
 	"path/filepath"
 	"regexp"
 	"runtime"
+	"runtime/pprof"
 	"sort"
 	"strconv"
 	"strings"
@@ -775,6 +776,10 @@ type outcome struct {
 	xconv    string
 	xerrText string
 	lsn      string
+	// v and data are the parsed configuration and its text, for the stages
+	// that follow an accepted case.
+	v    *cmd.VerifC20Conf
+	data []byte
 }
 
 var discard = slog.New(slog.NewTextHandler(io.Discard, nil))
@@ -915,6 +920,14 @@ type runner struct {
 	rng *rand.Rand
 	// tcpBudget bounds the number of real TCP servers started.
 	tcpBudget int
+	// bs is the backend stage (nil: the loopback cannot be used), fs the
+	// full-build stage, sc the scratch directory both use.
+	bs *backendStage
+	fs *fullStage
+	sc *scratch
+	// gates are the gates of the finished cases: a goroutine may panic after
+	// its case has been judged.
+	gates []*gate
 }
 
 // runReal parses, validates and, when accepted, builds and drives the real
@@ -944,6 +957,8 @@ func (rn *runner) runReal(k *kase, vs *vals) (oc outcome) {
 		return oc
 	}
 	oc.verdict = "ok"
+	oc.v, oc.data = v, data
+	leaveCrumb("main-campaign", k.canon(), nil)
 
 	// Conversions.
 	al := ratelimit.NewDynamicAllowlist(nil, nil)
@@ -1285,6 +1300,8 @@ func (rn *runner) run(k *kase, m *hlib.Model) {
 	k.muts = kept
 	canon := k.canon()
 	vs := k.vals()
+	leaveCrumb("load", canon, nil)
+	defer leaveCrumb("", "", nil)
 	oc := rn.runReal(k, vs)
 	replay := map[string]any{"case": canon, "how": "apply the tokens to config.dist.yaml: path=value sets a scalar " +
 		"(durations in ns, sizes in bytes, `-` removes the key), -path removes a section", "real_error": oc.errText}
@@ -1385,6 +1402,41 @@ func (rn *runner) run(k *kase, m *hlib.Model) {
 		}
 	}
 
+	// Backend stage: the builder steps that talk to the backend and the first
+	// queries of a profile (oracle inside, model lines returned).
+	var blines, breals []string
+	if oc.verdict == "ok" && oc.build == "ok" && rn.backendWanted(k) {
+		example := len(k.muts)+len(k.drops) == 0
+		leaveCrumb("backend-stage", canon, nil)
+		bo, done := rn.runBackend(oc.v, oc.data, vs, example)
+		if bo.flaky() && timeoutJudged(vs) {
+			done()
+			r.Count("backend:second-attempt")
+			bo, done = rn.runBackend(oc.v, oc.data, vs, example)
+		}
+		blines, breals = rn.judgeBackend(bo, vs, replay)
+		bo.gate.canon = canon
+		rn.gates = append(rn.gates, bo.gate)
+		if rn.fullWanted(&oc) {
+			k2, added := fullCase(k)
+			data2 := k2.render()
+			replay2 := map[string]any{"full_build_also_sets": added}
+			for key, v := range replay {
+				replay2[key] = v
+			}
+			leaveCrumb("full-build", k2.canon(), rn.fs.sandboxText(rn.sc, data2))
+			fo := rn.fs.run(rn.sc, data2, bo.lastDB())
+			if fo.flaky() && fullJudged(vs) {
+				r.Count("full:second-attempt")
+				fo = rn.fs.run(rn.sc, data2, bo.lastDB())
+			}
+			rn.judgeFull(fo, vs, replay2)
+			fo.gate.canon = k2.canon()
+			rn.gates = append(rn.gates, fo.gate)
+		}
+		done()
+	}
+
 	// Correspondence with the model.
 	lines := []string{canon}
 	if oc.verdict == "ok" {
@@ -1393,6 +1445,7 @@ func (rn *runner) run(k *kase, m *hlib.Model) {
 			lines = append(lines, fmt.Sprintf("handle %s %s %d", b2s(q.ip.Is4()), b2s(q.tcp), q.respLen))
 		}
 		lines = append(lines, "xconv", "listeners")
+		lines = append(lines, blines...)
 	}
 	ans := m.Batch(lines)
 	r.ModelOps += len(lines)
@@ -1417,10 +1470,24 @@ func (rn *runner) run(k *kase, m *hlib.Model) {
 		if oc.lsn != "" && ans[nq+1] != oc.lsn {
 			r.Disagree("listeners", fmt.Sprintf("case %q: real listeners accepting/parked %q, model %q", canon, oc.lsn, ans[nq+1]), replay)
 		}
+		for i, real := range breals {
+			got := ans[nq+2+i]
+			if real != got && !(class(real) == "panic" && class(got) == "panic") {
+				r.Disagree("backend", fmt.Sprintf("case %q, %s: real %q, model %q", canon, blines[i], real, got), replay)
+			}
+		}
 		if oc.xconv != "" {
 			r.Count("xconv:" + strings.TrimPrefix(oc.xconv, "xerr "))
 		}
 		r.Traces++
+	}
+
+	// The janitors of a limiter with a backoff period or duration below a
+	// second keep waking up until the limiter is collected.
+	if oc.verdict == "ok" && (vs.n("ratelimit.backoff_period").Cmp(bi(sec)) < 0 || vs.n("ratelimit.backoff_duration").Cmp(bi(sec)) < 0) {
+		oc.v = nil
+		runtime.GC()
+		r.Count("gc-after-subsecond-backoff")
 	}
 
 	// Accounting.
@@ -1828,13 +1895,28 @@ func (rn *runner) randomCase() *kase {
 func main() {
 	stdlog.SetOutput(io.Discard)
 	o := hlib.ParseFlags()
+	if os.Getenv(envChild) == "" {
+		// The campaign runs in a child; see supervise.go.
+		os.Exit(supervise(o))
+	}
+	if pf := os.Getenv("VERIF_C20_CPUPROF"); pf != "" {
+		f, err := os.Create(pf)
+		hlib.Must(err)
+		hlib.Must(pprof.StartCPUProfile(f))
+		defer pprof.StopCPUProfile()
+	}
 	r := hlib.NewResult("C20", o)
 	r.Rule = "config.dist.yaml of the tree under test with scalar fields replaced by pool values (absent, negative, 0, 1, " +
 		"boundaries, huge, not fitting the Go type) and sections removed; every single-field mutation and section " +
 		"removal exhaustively, then random subsets of 1-6 fields (thorough: also all pairs of boundary mutations); " +
 		"real parse+validate verdict and named property vs model; accepted configurations are converted by the real " +
 		"toInternal methods, the limiter/caches/handlers/servers are built and three queries (IPv4 UDP small, IPv6 UDP " +
-		"large, IPv4 TCP) are served; a case is non-trivial when it mutates something; distinct = distinct op lines"
+		"large, IPv4 TCP) are served; round 6: the example, every single boundary mutation, every accepted case touching backend.*, " +
+		"ratelimit.response_size_estimate or ratelimit.allowlist.* and a sample of the rest (520 per quick run) also go through the unchanged " +
+		"initBillStat, initProfileDB (first start, then a restart from the profile cache file; in-process gRPC backend with a profile " +
+		"that has a custom rate limit: Check, CountResponses, Check on its limiter), initRateLimiter, initDNSCheck and every builder step " +
+		"up to initDNS (all optional filters on), with three queries through the built DNS service; a case is non-trivial when it " +
+		"mutates something; distinct = distinct op lines"
 	m := hlib.StartModel(o.Model, "C20")
 	defer m.Close()
 
@@ -1846,7 +1928,10 @@ func main() {
 	hlib.Must(yaml.Unmarshal(data, &distTree))
 	adaptBase()
 
-	rn := &runner{o: o, r: r, rng: o.Rand("c20"), tcpBudget: 40}
+	rn := &runner{o: o, r: r, rng: o.Rand("c20"), tcpBudget: 40, bs: newBackendStage(o, r)}
+	defer rn.bs.close()
+	rn.fs = newFullStage(o, r)
+	defer rn.fs.close()
 	if o.Thorough() {
 		rn.tcpBudget = 400
 	}
@@ -1863,6 +1948,7 @@ func main() {
 	// steps of Main.
 	sc := newScratch()
 	defer os.RemoveAll(sc.dir)
+	rn.sc = sc
 	if o.Thorough() {
 		rn.shapeCampaign(sc, m, 6000)
 		rn.pruneCampaign(sc, 3000)
@@ -1952,6 +2038,21 @@ func main() {
 		rn.run(rn.randomCase(), m)
 	}
 
+	if pf := os.Getenv("VERIF_C20_HEAPPROF"); pf != "" {
+		runtime.GC()
+		f, err := os.Create(pf)
+		hlib.Must(err)
+		hlib.Must(pprof.Lookup("heap").WriteTo(f, 0))
+		_ = f.Close()
+	}
+	for _, g := range rn.gates {
+		if text := g.recovered(false); text != "" && !g.reported {
+			r.Violate("accepted-then-crash:"+g.stage, "a goroutine started for an accepted configuration panics after its first queries "+
+				"have been served (the program logs `recovered from panic`): "+text, map[string]any{"case": g.canon, "stage": g.stage,
+				"how": "apply the tokens to config.dist.yaml: path=value sets a scalar (durations in ns, sizes in bytes, `-` removes the key), "+
+					"-path removes a section"})
+		}
+	}
 	keys := hlib.SortedKeys(r.Distribution)
 	sort.Strings(keys)
 	r.Finish()
